@@ -6,8 +6,10 @@ interleaved as noise.  Observed per macro event: which threading.local token the
 have been destroyed so far (their thread state was cleared).  Runs in a subprocess: a crash of the
 process is the observation "process did not survive".  No sleeping: every wait is on an Event /
 semaphore signalled by the awaited action."""
+import ctypes
 import gc
 import os
+import queue
 import subprocess
 import sys
 import threading
@@ -56,10 +58,25 @@ def setup():
             weakref.finalize(tok, c.dead.add, tok.num)
         c.seen[t] = tok.num
         c.entered[t].set()
-        if not c.release[t].wait(c.timeout):
-            c.errors.append("callback of thread %d was never released" % t)
-        c.release[t].clear()
+        while True:
+            try:
+                cmd = c.cmds[t].get(timeout=c.timeout)
+            except queue.Empty:
+                c.errors.append("callback of thread %d was never released" % t)
+                break
+            if cmd == "end":
+                break
+            if cmd == "drop":
+                # some code holding the GIL removes the canary from this thread's thread-state dict
+                # (what PyThreadState_Clear would do): thread_canary_dealloc runs now, the thread lives on
+                d = h.getdict()
+                c.dropped_ok[t] = d.pop("cffi.thread.canary", None) is not None
+                c.acks[t].set()
         return tok.num
+    _gd = ctypes.pythonapi.PyThreadState_GetDict      # returns a BORROWED reference
+    _gd.restype = ctypes.c_void_p
+    _gd.argtypes = []
+    h.getdict = lambda: ctypes.cast(_gd(), ctypes.py_object).value
     h.cbptr = h.ffi.callback("int(int)", cb)
     return h
 
@@ -73,7 +90,9 @@ def run_case(h, case, base, timeout):
     c = Case()
     c.base, c.ntok, c.owner, c.dead, c.seen, c.errors, c.timeout = base, 0, {}, set(), {}, [], timeout
     c.entered = [threading.Event() for _ in range(n)]
-    c.release = [threading.Event() for _ in range(n)]
+    c.cmds = [queue.SimpleQueue() for _ in range(n)]
+    c.acks = [threading.Event() for _ in range(n)]
+    c.dropped_ok = {}
     h.case = c
     started, obs = set(), []
     lib = h.lib
@@ -90,8 +109,15 @@ def run_case(h, case, base, timeout):
             if not c.entered[t].wait(timeout):
                 return dict(status="timeout", detail="callback of thread %d did not start" % t, obs=obs)
             first = c.seen[t] + 1
+        elif kind == "drop":
+            c.acks[t].clear()
+            c.cmds[t].put("drop")
+            if not c.acks[t].wait(timeout):
+                return dict(status="timeout", detail="thread %d did not perform the drop" % t, obs=obs)
+            if not c.dropped_ok.get(t):
+                c.errors.append("thread %d had no cffi.thread.canary entry in its thread-state dict" % t)
         elif kind == "end":
-            c.release[t].set()
+            c.cmds[t].put("end")
             r = lib.c36_wait(base + t)
             if r != c.seen[t]:
                 c.errors.append("callback of thread %d returned %r" % (t, r))
